@@ -263,9 +263,16 @@ impl<'a> Gen<'a> {
                     self.allow_params = false;
                 }
                 self.allow_compiler = false;
-                let operand = match self.r.below(3) {
+                let operand = match self.r.below(4) {
                     0 => E::Number(1_757_611_408_000 + self.r.below(100_000_000) as i128),
                     1 => E::Number(101_674_141 + self.r.below(1000) as i128),
+                    // a parameter, alone or under arithmetic: the operand is available as soon as
+                    // the arguments are applied, and has to be reported by find_params
+                    2 if saved.0 => {
+                        self.allow_params = true;
+                        let p = self.param("n", Type::Int);
+                        if self.r.chance(1, 2) { p } else { bx(tir::BuiltInOp::Add(p, E::Number(60 + self.r.below(1000) as i128))) }
+                    }
                     _ => self.int(d - 1),
                 };
                 self.allow_params = saved.0;
